@@ -554,6 +554,9 @@ class C06(PropOracle):
             return
         g = {g["name"]: g for g in w.scen["groups"]}[j["group"]]
         limit = g["nproc"] if g["nproc"] is not None else w.scen.get("cpus", 2)
+        if w.obs.epoch >= 1 and "resubmit_nproc" in w.scen:
+            rn = w.scen["resubmit_nproc"]
+            limit = rn if rn is not None else w.scen.get("cpus", 2)
         live = len(vp.jobs)
         if live > limit:
             self.v(w, f"{live} job processes live on {vp.name} {sorted(vp.jobs)} > limit {limit}",
